@@ -2,7 +2,7 @@
 import json
 import os
 
-from common import Inconclusive, add_violations_from_bad, finish, log
+from common import SPEC, Inconclusive, add_violations_from_bad, finish, log
 
 
 def tlc_histories(ctx, ids, depth, early=False):
@@ -31,8 +31,46 @@ CHECK_DEADLOCK FALSE
     return res, hs
 
 
+def design_proof(ctx, thorough):
+    """Unbounded design-level safety: the inductive invariant of GroupChainInd proved with TLAPS for
+    every set of ids and every height bound; Apalache re-checks inductiveness on concrete constants
+    and refutes the pre-repair remove() (negative control).  The outcome is recorded in the
+    evidence; it never changes the verdict (the provers' time-outs depend on machine load)."""
+    import shutil
+    import subprocess
+    d = os.path.join(ctx.scratch, "proof")
+    os.makedirs(d, exist_ok=True)
+    for f in ("GroupChainInd.tla", "GroupChainIndProof.tla", "GroupChainInd_apalache.tla"):
+        shutil.copyfile(os.path.join(SPEC, f), os.path.join(d, f))
+    out = {}
+    try:
+        p = subprocess.run(["tlapm", "--threads", "4", "GroupChainIndProof.tla"], cwd=d, capture_output=True, text=True, timeout=600)
+        txt = p.stdout + p.stderr
+        m = [l for l in txt.splitlines() if "obligations" in l]
+        out["tlaps"] = m[-1].strip() if m else "no summary (exit %d)" % p.returncode
+        out["tlaps_proved"] = bool(m) and "All" in m[-1] and "proved" in m[-1]
+    except Exception as e:   # noqa
+        out["tlaps"] = "not run: %s" % e
+        out["tlaps_proved"] = False
+    if thorough:
+        def apa(args):
+            try:
+                p = subprocess.run(["apalache-mc", "check"] + args + ["GroupChainInd_apalache.tla"], cwd=d,
+                                   capture_output=True, text=True, timeout=900)
+                return "NoError" if "The outcome is: NoError" in p.stdout else ("Error" if "The outcome is: Error" in p.stdout else "unknown")
+            except Exception as e:   # noqa
+                return "not run: %s" % e
+        out["apalache_init"] = apa(["--init=Init", "--inv=IndInv", "--length=0"])
+        out["apalache_step"] = apa(["--init=IndInit", "--inv=IndInv", "--length=1"])
+        out["apalache_implied"] = apa(["--init=IndInit", "--inv=Implied", "--length=0"])
+        out["apalache_pre_repair_remove_refuted"] = apa(["--init=IndInit", "--next=NextAsCoded", "--inv=IndInv", "--length=1"]) == "Error"
+    log("design proof: %s" % out)
+    return out
+
+
 def run(ctx):
     quick = ctx.quick()
+    proof = design_proof(ctx, not quick)
     # 1. design level: the reference keeps the invariants; crash exploration is informative
     ref = ctx.tlc("GroupChain", cfg="GroupChain.cfg", coverage=not quick)
     crash = ctx.tlc("GroupChain", cfg="GroupChain_crash.cfg", allow_violation=True)
@@ -91,6 +129,7 @@ def run(ctx):
         "overlapping_call_histories_generated": len(concs),
         "overlapping_call_histories_replayed": min(len(concs), 900 if quick else 12000),
         "samples": samples,
+        "design_level_inductive_invariant": proof,
         "action_coverage": ref["coverage"],
         "crash_model_invariant_violated": bool(crash["error"]),
         "exhaustive": True,
